@@ -558,3 +558,104 @@ impl Adversary for Rewriter {
 
     fn on_wire(&mut self, _w: &WireRec, _now_us: u64, _plan: &Plan, _out: &mut Vec<TimedOp>) {}
 }
+
+// ---------------------------------------------------------------------------------------------
+
+/// World B attacker: raw sockets that complete the handshake by hand (so they are *connected*
+/// peers that know nonces and sequence numbers) and then fire crafted frames at the server from
+/// their own addresses, next to unconnected sockets sending arbitrary frames.
+pub struct ConnectedAttacker {
+    rng: Rng,
+    server: usize,
+    raws: Vec<usize>,
+    view: std::collections::BTreeMap<usize, Seen>,
+    syn_nonce: std::collections::BTreeMap<usize, u32>,
+    connected: std::collections::BTreeSet<usize>,
+    wants_connect: std::collections::BTreeSet<usize>,
+    count: u64,
+    max: u64,
+    until_us: u64,
+    rate: f64,
+    burst_max: u64,
+    allow_big: bool,
+}
+
+impl ConnectedAttacker {
+    pub fn new(plan: &Plan) -> Self {
+        let mut rng = Rng::keyed(&[plan.fate_seed.unwrap_or(0), 0x63617474]);
+        let server = plan.endpoints.iter().position(|e| matches!(e.kind, EndpointKind::Server { .. })).unwrap_or(0);
+        let raws: Vec<usize> = plan.endpoints.iter().enumerate().filter(|(_, e)| matches!(e.kind, EndpointKind::Raw)).map(|(i, _)| i).collect();
+        let wants_connect = raws.iter().cloned().filter(|_| rng.chance(0.7)).collect();
+        let rate = *rng.pick(&[0.05, 0.2, 0.6]);
+        let burst_max = *rng.pick(&[1u64, 4, 20]);
+        Self {
+            rng,
+            server,
+            raws,
+            view: Default::default(),
+            syn_nonce: Default::default(),
+            connected: Default::default(),
+            wants_connect,
+            count: 0,
+            max: plan.param("hostile_max", 500.0) as u64,
+            until_us: plan.param("hostile_until_us", 0.0) as u64,
+            rate,
+            burst_max,
+            allow_big: plan.param("hostile_big", 0.0) != 0.0,
+        }
+    }
+}
+
+impl Adversary for ConnectedAttacker {
+    fn on_wire(&mut self, w: &WireRec, now_us: u64, _plan: &Plan, out: &mut Vec<TimedOp>) {
+        let Some(dst) = w.dst else { return };
+        if w.src != self.server || !self.raws.contains(&dst) {
+            return;
+        }
+        // what the server tells the attacker about its side of their connection
+        let v = self.view.entry(dst).or_default();
+        v.observe(&w.bytes);
+        if let Some(uv::Frame::HandshakeSynAckFrame(f)) = uv::Frame::read(&w.bytes) {
+            if Some(f.nonce_ack) == self.syn_nonce.get(&dst).cloned() && !self.connected.contains(&dst) && now_us < self.until_us {
+                // complete the handshake by hand
+                self.connected.insert(dst);
+                v.tx_frame = Some(f.nonce);
+                v.tx_packet = Some(f.nonce & 0xFFFFF);
+                v.rx_frame_base = Some(f.nonce_ack);
+                v.rx_packet_base = Some(f.nonce_ack & 0xFFFFF);
+                let dt = self.rng.below(100_000);
+                out.push(TimedOp { t_us: now_us + dt, rank: DELIVER_RANK_PUB, op: Op::Inject { to: self.server, from: dst, bytes: enc_hs_ack(f.nonce), twin: true } });
+            }
+        }
+    }
+
+    fn on_call_end(&mut self, _call: u64, ep: Option<usize>, _probe: &Probe, now_us: u64, plan: &Plan, out: &mut Vec<TimedOp>) {
+        if ep != Some(self.server) || now_us >= self.until_us || self.count >= self.max {
+            return;
+        }
+        for raw in self.raws.clone() {
+            if self.wants_connect.contains(&raw) && !self.syn_nonce.contains_key(&raw) {
+                let nonce = if self.rng.chance(0.3) { 0u32.wrapping_sub(self.rng.below(5000) as u32) } else { self.rng.u32() };
+                self.syn_nonce.insert(raw, nonce);
+                let (rate, pkt, alloc) = match &plan.endpoints[self.server].kind {
+                    EndpointKind::Server { cfg, .. } => (2_000_000u32, cfg.max_receive_alloc.min(1000) as u32, cfg.max_packet_size.max(1000).min(u32::MAX as u64) as u32),
+                    _ => (2_000_000, 1000, 1_000_000),
+                };
+                out.push(TimedOp { t_us: now_us, rank: DELIVER_RANK_PUB, op: Op::Inject { to: self.server, from: raw, bytes: enc_syn(3, nonce, rate, pkt, alloc, 1472), twin: true } });
+                continue;
+            }
+            if !self.rng.chance(self.rate) {
+                continue;
+            }
+            let n = self.rng.range(1, self.burst_max);
+            for _ in 0..n {
+                let view = self.view.get(&raw).cloned().unwrap_or_default();
+                // what the server expects from the attacker is what it announced to it
+                let bytes = hostile_frame(&mut self.rng, &view, 4096, self.allow_big);
+                let dt = if self.rng.chance(0.7) { 0 } else { self.rng.below(200_000) };
+                out.push(TimedOp { t_us: now_us + dt, rank: DELIVER_RANK_PUB, op: Op::Inject { to: self.server, from: raw, bytes, twin: true } });
+                self.count += 1;
+            }
+        }
+    }
+}
